@@ -208,6 +208,7 @@ def run_unit(name, tier='quick', seed=0):
     r.cmd = ''
     r.wall = 0.0
     r.bounded = []
+    r.lost = []
     t0 = time.time()
     wd = os.path.join(WORK, name)
     os.makedirs(wd, exist_ok=True)
@@ -242,6 +243,7 @@ def run_unit(name, tier='quick', seed=0):
     r.obligations = dict(u.obligations)
     r.obligations.update(lemma_obligations(u, text, spans, fns))
     r.functions = u.functions
+    r.lost = list(u.lost_anchors)
     r.log = u.log
     r.trusted = tb + ['N6 havoc: ' + h for h in u.havocs] + ['N7 ' + x for x in u.reduced] + list(u.trait_contracts)
     renames = sorted(set((l['before'], l['after']) for l in u.log if l['rule'] == 'N3'))
